@@ -90,6 +90,8 @@ pub assume_specification [<Regions as Default>::default] () -> (r: Regions)
              ("C03",), "no-spurious-layout-rejection"),
             ("""res is Ok && res->Ok_0 is Some && vftable_functions is None && first_base_of(regions@) is None ==> layout_accepts(regions@, target_size, &final(semantic).type_registry)""",
              ("C03",), "layout-accepted-only-if"),
+            ("""first_base_of(regions@) is Some && ty_size(first_base_of(regions@)->0.type_ref, &old(semantic).type_registry) is None
+                    ==> res is Ok && res->Ok_0 is None && *final(semantic) == *old(semantic)""", ("C10", "C06"), "unresolved-first-base-defers"),
             ("final(semantic).modules@.dom() == old(semantic).modules@.dom()", ("C12", "C10"), "keeps-modules"),
             ("reg_wf(&final(semantic).type_registry)", ("C10",), "keeps-reg-wf"),
             ("keys_kept(&old(semantic).type_registry, &final(semantic).type_registry)", ("C10", "C14"), "keys-kept"),
@@ -114,6 +116,7 @@ pub assume_specification [<Regions as Default>::default] () -> (r: Regions)
     proof { assert((vftable_functions is None && first_base_of(regions@) is None) ==> vr0 is None); }
     proof { assert(init_acc == (match vr0 { Some(r) => place((Seq::<Region>::empty(), 0nat), r, &semantic.type_registry), None => (Seq::<Region>::empty(), 0nat) })); }""")
     loop_spec(ctx, fw, u, l1, label="it", tags=L, invariants=[
+        ("first_base_of(regions@) is Some ==> ty_size(first_base_of(regions@)->0.type_ref, &old(semantic).type_registry) is Some", ("C10", "C06")),
         "reg_wf(&semantic.type_registry)",
         ("vr0 is Some ==> resolved.regions@.len() > 0 && resolved.regions@[0] == vr0->0", ("C06",)),
         ("it.seq() == regions@", ("C03",)),
@@ -172,6 +175,8 @@ pub assume_specification [<Regions as Default>::default] () -> (r: Regions)
     rules.fmt_value(fw, mac[0], "v_format1_usize")
     rules.for_mut_to_iter_mut(fw, l2)
     loop_spec(ctx, fw, u, l2, label="it2", tags=L, invariants=[
+        ("first_base_of(regions@) is Some ==> ty_size(first_base_of(regions@)->0.type_ref, &old(semantic).type_registry) is Some", ("C10", "C06")),
+
         "reg == &semantic.type_registry",
         ("keys_kept(&old(semantic).type_registry, &semantic.type_registry)", ("C10",)),
         ("semantic.type_registry.pointer_size == old(semantic).type_registry.pointer_size", ("C10",)),
